@@ -10,6 +10,9 @@ CHECKS = {
  "C02": ("exploration", "reference-model trace checker (exact expected outputs per step), order-permutation confluence, exhaustive small orders, run-loop replay under the race detector",
          "A 60-line reference model predicts, for every step, the exact own observation and the exact quorum-VAA bytes; the real handlers must emit exactly those (publication exactly at first quorum after local observation, never before, once per lifetime, body equal to the own observation, nothing at all for governance-emitter observations). Fixed multisets are replayed in random orders with duplications (published set must not depend on order), every order of small multisets is enumerated, and scenarios are replayed through the real Run loop where the own-signature loop-back goroutine races for real.",
          "Validity of an observation is judged against the set applicable at its delivery; confluence only without set changes and for a member node.", "3/C02"),
+ "C03": ("exploration", "mutation-driven runtime oracle with independent acceptability predicate; before/after state snapshots; concurrent cap stress under the race detector",
+         "For observations (real handleObservation), heartbeats and re-observation requests (real verifiers through hooks): a valid message by a member and every single mutation from the property (bit flips across payload/signature/address, outsider, member under another member's address, wrong/missing/other-type prefix, valid signatures over 31..35-byte pre-images, cross-type replay, empty/64/66-byte signatures, old member after rotation) against sets of 1, 3, 19 before and after a set change. Acceptability is recomputed independently; a rejected message must return an error and leave the aggregation snapshot / heartbeat table byte-identical; accepted heartbeats must be filed under the recovered signer; 8 goroutines x 40 peer ids stress the per-guardian cap under -race.",
+         "The dispatch switch inside p2p.Run (libp2p receive loop) is not reachable offline; disableVerify=true (spy mode) not exercised.", "3/C03"),
  "C04": ("exploration", "differential runtime oracle: real serializer/processor vs spec layout and source-interpreted Solidity/Ralph parsers",
          "Generated VAAs (boundary table for every field + random; payloads 0..65535) are serialized by the real code; body/digest compared with an independent layout + x/crypto keccak, parsed back by interpreters built at run time from Messages.sol parseVM and governance.ral parseAndVerifyVAA; invariance (version/set index/signatures/nanos) and single-field injectivity asserted per VAA; two real processors (Run loop, different keys, different set indices) must sign the harness' digest.",
          "Contract parsers are interpreted from source text by the harness (not EVM/VM execution). Held on the generated inputs only.", "3/C04"),
@@ -25,6 +28,9 @@ CHECKS = {
  "C13": ("exploration", "panic monitor: recover() around real handlers over adversarial histories; child processes running the real Run loop under the real supervisor with panic propagation",
          "Adversarial histories over all seven processor inputs (nil/empty/1 MiB payloads, extreme timestamps, malformed observations and inbound bytes, injections before any guardian set, empty/foreign sets, age + cleanup ticks anywhere, complete-store-observe-again patterns) are replayed against the real handlers; a recovered panic is a violation whose class is the innermost repository function on the stack. A share is replayed in child processes through the real Run loop under supervisor.WithPropagatePanic: a panic there is observed as the process exit the property is about.",
          "Cleanup ticks are driven only in direct mode (logical ageing through the VerifAge hook).", "3/C13"),
+ "C14": ("exploration", "trace monitor over hooked cleanup under a logical clock (VerifAge), envelope oracle on retransmission times and entry lifetimes",
+         "Entries of four kinds are created through the real handlers at different logical times; handleCleanup is driven by tick scripts (regular 30 s, irregular 1 s..3 h, stalls up to 1300 h, full request queue, one full 14400-retry run). After every tick the outbound gossip channel, the request channel and the aggregation map are observed: retransmissions byte-identical to the original observation, >= 5 min apart, never overdue by more than 5 min + 2 tick gaps, accompanied by a re-observation request when the queue has room; observed entries never discarded before the budget is spent unless a quorum VAA is stored; late/unknown/submitted entries gone within 30 s / 5 min / 1 h + 2 ticks.",
+         "Logical time through the VerifAge hook; scenarios whose real elapsed time could blur a threshold are discarded.", "3/C14"),
  "C16": ("fault_enumeration", "SIGKILL injection into writer child processes at PRNG-chosen points; fresh verifier process checks every acknowledged id",
          "Writer children stream unique (cycle,seq,version) VAAs of 100 B..256 KiB (with overwrites) into one badger directory through the real db.StoreSignedVAA and acknowledge each on a pipe; the parent SIGKILLs them after the k-th ACK + delay, right after a BEGIN, during open, or kills the verifier during its own reopen; after every kill a fresh process reopens the directory and looks up every id of all cycles: acknowledged => exact bytes of the acknowledged (or a later begun) version, unacknowledged => not-found or exact bytes, never anything else; reopen must succeed.",
          "Process kill only (page cache survives), as the property states; kill points are sampled, not enumerated at instruction granularity.", "3/C16"),
